@@ -600,11 +600,11 @@ def run_layout(ctx: Ctx, rng: random.Random, fixed_ids: List[str], stats: Dict[s
             ctx.notes.append(f"Marked(TLC)={tm} but parse-based verdict={ok} for {o['src']!r} "
                              f"linelen={o['linelen']} maxlines={o['maxlines']}")
     # ---- negative control: an unmarked cut and a silently shortened text must be rejected by TLC
-    cut = next((o for o in observations if not o["complete"]), None)
-    whole = next((o for o in observations if o["complete"] and len(o["shown"]) > 4), None)
+    whole = next((o for o in observations if o["complete"] and len(o["shown"]) > 4 and "ELL" not in o["shown"]), None)
     nc = {"unmarked_cut_rejected": False, "silently_shortened_rejected": False}
-    if cut and whole:
-        broken = [dict(cut, shown=cut["shown"][:-1]), dict(whole, shown=whole["shown"][:2] + whole["shown"][3:])]
+    if whole:
+        broken = [dict(whole, complete=False, shown=whole["shown"][:-2]),
+                  dict(whole, shown=whole["shown"][:2] + whole["shown"][3:])]
         g = ctx.scratch / "layout_obs.json"
         g.write_text(json.dumps([{k: v for k, v in o.items() if k != "src"} for o in broken]))
         r3 = ctx.tlc("ExprLayout", layout_cfg("file", 0, 0, fixed_ids), workers=1, env={"LAYOUT_FILE": str(g)},
